@@ -63,7 +63,7 @@ func runLocal(cfg recvdrv.Config, ops []recvdrv.Op, wd time.Duration, cidOf func
 	if err != nil {
 		panic(err)
 	}
-	defer r.Close()
+	defer closeBounded(r)
 	if cfg.Cap > 0 {
 		r.VerifSetCacheSize(cfg.Cap)
 	}
